@@ -1278,19 +1278,51 @@ class Context:
             return VTuple(names)
         if fn == 'event_arg':
             name = self.const_str(I, I.ev(node.args[0], frame))
-            k = VInt(I.as_int(I.ev(node.args[1], frame))).const()
+            kterm = I.as_int(I.ev(node.args[1], frame))
+            k = VInt(kterm).const()
             j = VInt(I.as_int(I.ev(node.args[2], frame))).const() if len(node.args) > 2 else 0
             evs = [e for e in I.st.trace if isinstance(e, Event) and e.name == name]
             ghosts = [e for e in I.st.trace if isinstance(e, GhostSeg) and e.name == name]
             if ghosts and not evs and len(ghosts) == 1:
                 g = ghosts[0]
+                kt = z3.IntVal(k) if k is not None else kterm          # a quantified index is fine over a summarised sequence
                 if j == 0:
-                    return I.wrap_elem(g.seq, g.seq.th.Idx(g.seq.t, z3.IntVal(k)))
+                    return I.wrap_elem(g.seq, g.seq.th.Idx(g.seq.t, kt))
                 if j not in g.more:
                     g.more[j] = VSeq(I.fresh('ev_%s_arg%d' % (name.replace(':', '_').replace('.', '_'), j), T.SeqO.sort), 'list', T.SeqO)
-                return VOpaque(T.SeqO.Idx(g.more[j].t, z3.IntVal(k)))
+                return VOpaque(T.SeqO.Idx(g.more[j].t, kt))
+            if ghosts and len(ghosts) == 1 and evs:
+                order = [e for e in I.st.trace if (isinstance(e, Event) or isinstance(e, GhostSeg)) and e.name == name]
+                if order[0] is ghosts[0] and all(j < len(e.args) for e in evs):
+                    # the summarised prefix followed by the events emitted since the cut: index into the concatenation
+                    g = ghosts[0]
+                    kt = z3.IntVal(k) if k is not None else kterm
+                    L = g.seq.th.Len(g.seq.t)
+                    if j == 0 and g.seq.th is T.SeqO:
+                        gt = T.SeqO.Idx(g.seq.t, kt)
+                    else:
+                        if j not in g.more:
+                            g.more[j] = VSeq(I.fresh('ev_%s_arg%d' % (name.replace(':', '_').replace('.', '_'), j), T.SeqO.sort), 'list', T.SeqO)
+                        gt = T.SeqO.Idx(g.more[j].t, kt)
+                    t = None
+                    for idx in range(len(evs) - 1, -1, -1):
+                        at = self.obj_term(I, evs[idx].args[j], node)
+                        t = at if t is None else z3.If(kt == L + idx, at, t)
+                    return VOpaque(z3.If(kt < L, gt, t), 'eventarg')
             if ghosts:
                 raise Unsupported('event_arg() over a trace that mixes concrete and summarised events', node)
+            if k is None:
+                # a quantified index over concrete events: a case distinction over the events there are
+                if not evs:
+                    self.qcount += 1
+                    return VOpaque(z3.Const('missing-event!%d' % self.qcount, T.Obj), 'missing')
+                t = None
+                for idx in range(len(evs) - 1, -1, -1):
+                    if j >= len(evs[idx].args):
+                        raise Unsupported('event_arg(): argument %d missing' % j, node)
+                    at = self.obj_term(I, evs[idx].args[j], node)
+                    t = at if t is None else z3.If(kterm == idx, at, t)
+                return VOpaque(t, 'eventarg')
             if k >= len(evs) or j >= len(evs[k].args):
                 # no such event on this path: an unconstrained value (the clause must also pin n_events)
                 self.qcount += 1
